@@ -71,6 +71,11 @@ CHECKS = {
          "Every string up to length 4 (quick) / 5 (thorough) over 28 class-representative bytes against 3 tree shapes x 5 handler plans, every continuation up to length 4/5 behind 15 prefixes that place each data reader (block, string, expression, channel list, non-decimal, suffix) at offset 0, and every string up to length 5/7 over the list alphabet through the channel-list and numeric-list iterators, spec iteration and all six tuple conversions. Each case must return normally with Ok or a SCPI error other than -300 'Internal parser error'; panics are caught per case, non-termination by a watchdog, process death by the ./check wrapper from a per-chunk journal. Run under release and under debug-assertions + overflow-checks.",
          "Trusted: catch_unwind/watchdog machinery; the class-representative alphabet (readers branch on class membership and on block length digits 0/1/9). Strings longer than the bound are covered only behind the listed prefixes.",
          "DESIGN.md section 5 (C01)"),
+ "C07": ("exploration",
+         "exhaustive structured literal families (sign x integer part x fraction x exponent, all short literals over a numeric alphabet, non-decimal literals, keywords, other types) x 10 integer targets + bool, against an exact big-integer decimal oracle",
+         "About 18k-36k grammar literals (every type bound -1/+0/+1/+2, same-digit-count overflows, every half-integer spelling, exponents from E-400 to E400) and every NRf literal up to length 5/7 over `+-0159.E`, each converted to all ten integer types and bool through TryFrom<Token> and through Parameters::next_data in a real message; non-decimal literals of every bound incl. 64-bit overflow patterns; MIN/MAX keywords; every other element type must give a command error. Ok(r) is accepted iff |r - x| <= 1/2 + one ulp of the intermediate float type at the exact value x (exactly x for NR1 spellings); -222 iff some such integer is unrepresentable.",
+         "Trusted: refmodel/decnum.rs + bigint.rs (exact rational arithmetic, self-checked), the tolerance fixed in DESIGN.md 3.3. 32/64-bit value space is covered by boundary-directed families, not exhaustively.",
+         "DESIGN.md section 5 (C07)"),
 }
 
 NOT_YET = "check not built yet (planned: DESIGN.md section 5 describes the bounded exhaustive exploration that will decide it)"
